@@ -14,6 +14,7 @@ from ..spec import build, child_specs, kinds, qexpr, walk_spec
 
 ID = "C04"
 BUDGET = {"quick": (4, 400), "thorough": (16, 5000)}
+FUZZ = {"jobs": 8, "runs": 40000, "max_len": 4096, "timeout_s": 600}
 TECHNIQUE = "property-based round-trip testing (Hypothesis; thorough tier also coverage-guided via Atheris)"
 RULE = (
     "Generated: a tree spec with every primitive in every child/flow slot (sparse and centrally-binned aggregators in "
